@@ -75,7 +75,7 @@ def run_shard(pid, tier, seed, i, n, out_path, only_case=None):
         errors.append({"where": "shard", "tb": traceback.format_exc()[-3000:]})
     reach.stop()
     res = ctx.result()
-    res["errors"] = errors
+    res["errors"] = errors + ctx.errors
     res["reach"] = reach.report()
     res["wall_s"] = time.time() - t0
     res["native"] = native_info
